@@ -1449,6 +1449,11 @@ def gen_msd_shape():
         lf = ast.unparse(_find_func(tree, None, '_lengths'))
         if 'metric_tensor = lattice.metric_tensor' not in lf:
             raise Unsupported('_lengths does not use lattice.metric_tensor')
+        cls = next((n for n in tree.body if isinstance(n, ast.ClassDef) and n.name == 'Trajectory'), None)
+        own = {f.name for f in cls.body if isinstance(f, ast.FunctionDef)} if cls else set()
+        if 'to_displacements' in own:
+            # Model.C06 unwraps with pymatgen's to_displacements (round half to even); an own version is not what the model transcribes
+            raise Unsupported('Trajectory overrides the library method to_displacements')
         db = ast.unparse(_find_func(tree, 'Trajectory', 'distances_from_base_position'))
         if 'self.cumulative_displacements' not in db or '_lengths(' not in db:
             raise Unsupported('distances_from_base_position')
